@@ -80,6 +80,13 @@ func multisetEq(a, b []string) bool {
 func dictHistory[K comparable](c *libCtx, r *rng, nOps int, keyOf func(int) K, label string) {
 	d := dict.New[K, int]()
 	m := &assoc[K, int]{}
+	// a third of the histories start from ToDict of an empty (nil / zero-length) pair list
+	switch r.intn(6) {
+	case 0:
+		d = dict.ToDict[K, int](nil)
+	case 1:
+		d = dict.ToDict(make([]frt.Tuple2[K, int], 0, 4))
+	}
 	nk := 2 + r.intn(7)
 	var log []string
 	fail := func(what string, got, want any) {
@@ -178,6 +185,12 @@ func dictHistory[K comparable](c *libCtx, r *rng, nOps int, keyOf func(int) K, l
 				}
 				if !multisetEq(g, w) {
 					libViol("dict.ToDict", "does not keep the last value per key", fmt.Sprint(pairs), g, w)
+				}
+				// every other time the history goes on with the rebuilt dictionary (a dictionary made by
+				// ToDict - from an empty list too - is a dictionary like any other: written to, read, listed)
+				if r.intn(2) == 0 {
+					log = append(log, fmt.Sprintf("(continue on the result of ToDict of %d pairs)", np))
+					d, m = d2, m2
 				}
 			}
 		})
@@ -529,7 +542,7 @@ func mainLibs() {
 	checkFrt(c)
 	stat("checks_per_area", c.per)
 	stat("dict_histories", n)
-	sample("dict history: 40 ops drawn from Add/TryFind/ContainsKey/Item/Keys/Values/KVs/ToDict over 2..8 keys, each write a unique value")
+	sample("dict history: 40 ops drawn from Add/TryFind/ContainsKey/Item/Keys/Values/KVs/ToDict over 2..8 keys, each write a unique value; a third start from ToDict of an empty list, half of the ToDict results (0..7 pairs) become the dictionary the history continues on")
 	sample("strings: HasSuffix \".fo\" \"x.fo\"; Split \",\" \",a,,b,\"; SplitN 2 \",\" \"a,b,c\"; Concat \", \" [\"a\";\"\";\"b\"]")
 	sample("frt.SInterP(\"<%s>\", v) for v of kinds int8..int64, uint..uint64, uintptr, float32/64, string, bool, nil, ptr, struct, slice, Stringer, tuple, map")
 	done(c.evals, c.distinct)
